@@ -97,6 +97,8 @@ def to_svg(n, top=True):
         name = 'xlink:href' if attr == 'href' else attr
         if target is None:
             val = literal
+        elif isinstance(target, list):          # filter list: ids and None (= a filter function)
+            val = ' '.join('blur(0.5)' if t is None else 'url(#%s)' % t for t in target)
         elif attr == 'href':
             val = '#' + target
         else:
@@ -128,6 +130,10 @@ def to_coq(n, names, top=True):
     nm = 'None' if n.id is None else '(Some %d%%N)' % names.get(n.id)
     attrs = []
     for attr, target, literal in n.links:
+        if isinstance(target, list):
+            for t in target:
+                attrs.append('(%s, %s)' % (AKEY[attr], 'None' if t is None else '(Some %d%%N)' % names.get(t)))
+            continue
         v = 'None' if target is None else '(Some %d%%N)' % names.get(target)
         attrs.append('(%s, %s)' % (AKEY[attr], v))
     kids = [to_coq(k, names, False) for k in n.kids]
@@ -475,3 +481,24 @@ def nest_parse(s):
         return "LT [%s]" % "; ".join(items)
     except ValueError:
         return None
+
+
+# ---------------------------------------------------------------------------------------------------------
+# second pass: list-valued filter attributes.  A reference filter="url(#t)" is rewritten (seeded) as a list with a
+# filter function, a repeated entry or a dangling entry before / after it; every url entry is an edge of the graph.
+# ---------------------------------------------------------------------------------------------------------
+FLIST_FORMS = (lambda t: [t, None], lambda t: [None, t], lambda t: [t, t], lambda t: [t, 'vf_missing'],
+               lambda t: ['vf_missing', t], lambda t: [None, t, None, t])
+
+
+def listify(d, h):
+    """rewrite about half of the single filter references of document d as lists; -> number rewritten"""
+    n = 0
+    for j, x in enumerate(d.walk()):
+        for i, (attr, target, literal) in enumerate(x.links):
+            if attr == 'filter' and isinstance(target, str):
+                hh = (h >> (j % 20)) ^ (h * (j + 3))
+                if hh & 1:
+                    x.links[i] = (attr, FLIST_FORMS[(hh >> 1) % len(FLIST_FORMS)](target), literal)
+                    n += 1
+    return n
